@@ -24,7 +24,7 @@ pub struct VGraph { pub nodes: Vec<Node>, pub edges: Vec<Edge>, pub shape: &'sta
 #[derive(Clone, Debug)]
 pub struct FileSpec { pub name: String, pub content: String, pub kind: FileKind }
 #[derive(Clone, Copy, Debug, PartialEq, Eq)]
-pub enum FileKind { Root, Diff { from: usize, to: usize }, Noise, Bad }
+pub enum FileKind { Root, /** the second `.tiny` file of a two-root directory */ SecondRoot, Diff { from: usize, to: usize }, Noise, Bad }
 
 const PLAIN: &[&str] = &["1.0.0", "1.3", "1.4.1", "1.5", "1.7.10", "1.12-pre3-1409", "1.RV-Pre1", "12w05a-1442", "13w16a-04192037", "b1.1-1245", "b1.3-1750-client", "b1.3-1731-server", "b1.8-pre1-201109081459",
     "a1.0.5-2149", "a1.2.3_01-0958", "af-2013-red", "inf-20100618", "c0.30-c-1900", "rd-132211-launcher", "1.14_combat-212796", "3D Shareware v1.34", "1.1", "1.10", "1.1.1", "x.tiny", "y.tinydiff", ".hidden", "1.0-ß", "版本1", "A", "a"];
@@ -145,7 +145,8 @@ pub struct Malformed {
 pub enum Demand { Directory, Versions(Vec<String>) }
 
 pub const MALFORMED_KINDS: &[&str] = &["no_root.root_file_dropped", "no_root.empty_directory", "no_root.only_ignored_files", "two_roots.second_is_a_graph_node", "two_roots.second_is_isolated",
-    "cycle.through_root", "cycle.self_loop_on_root", "cycle.back_edge_beside_root", "cycle.self_loop_beside_root", "unreachable.extra_parent_of_a_node", "unreachable.island_edge", "unreachable.island_cycle",
+    "two_roots.both_split_sharing_the_client_half", "two_roots.both_split_sharing_the_server_half", "two_roots.plain_and_split_sharing_the_client_half", "two_roots.plain_and_split_sharing_the_server_half",
+    "cycle.two_versions_pointing_at_each_other_entered_from_both", "cycle.through_root", "cycle.self_loop_on_root", "cycle.back_edge_beside_root", "cycle.self_loop_beside_root", "unreachable.extra_parent_of_a_node", "unreachable.island_edge", "unreachable.island_cycle",
     "unreachable.parent_of_root"];
 
 fn plausible_diff(g: &VGraph, from: usize, to: usize, rng: &mut Rng) -> String {
@@ -166,13 +167,38 @@ pub fn malform(g: &VGraph, kind: &'static str, rng: &mut Rng) -> Option<Malforme
         "two_roots.second_is_a_graph_node" => {
             if n < 2 { return None; }
             let v = rng.usize_in(1, n - 1);
-            files.push(FileSpec { name: format!("{}.tiny", g.nodes[v].name), content: textfmt::emit_tiny(&g.nodes[v].state, rng), kind: FileKind::Bad });
+            files.push(FileSpec { name: format!("{}.tiny", g.nodes[v].name), content: textfmt::emit_tiny(&g.nodes[v].state, rng), kind: FileKind::SecondRoot });
             (Demand::Directory, format!("second root file for node {v}"))
         }
         "two_roots.second_is_isolated" => {
             let (name, _) = version_name(rng, &mut used, split);
-            files.push(FileSpec { name: format!("{name}.tiny"), content: textfmt::emit_tiny(&small(), rng), kind: FileKind::Bad });
+            files.push(FileSpec { name: format!("{name}.tiny"), content: textfmt::emit_tiny(&small(), rng), kind: FileKind::SecondRoot });
             (Demand::Directory, format!("second root file {name}.tiny"))
+        }
+        "two_roots.both_split_sharing_the_client_half" | "two_roots.both_split_sharing_the_server_half" | "two_roots.plain_and_split_sharing_the_client_half" | "two_roots.plain_and_split_sharing_the_server_half" => {
+            // two `.tiny` files whose version names share a lookup name (the loader keys nodes by these names, so both files
+            // may end up on one node); two root files are malformed whatever they are called
+            let rk = &g.nodes[0].keys;
+            let fresh = |base: &str| { let mut i = 1; loop { let s = format!("{base}_{i:02}"); if !used.contains(&s) { return s; } i += 1; } };
+            let client_side = kind.ends_with("client_half");
+            let name = if kind.starts_with("two_roots.both_split") {
+                if rk.len() != 2 { return None; }
+                if client_side { format!("{}~{}", rk[0], fresh(&rk[1])) } else { format!("{}~{}", fresh(&rk[0]), rk[1]) }
+            } else if rk.len() == 2 {
+                if client_side { rk[0].clone() } else { rk[1].clone() }
+            } else if client_side { format!("{}~{}", rk[0], fresh("server-zz")) } else { format!("{}~{}", fresh("client-zz"), rk[0]) };
+            // different content, so that "whichever file won" shows in the answers
+            let state = if n >= 2 && g.nodes[n - 1].state != g.nodes[0].state { g.nodes[n - 1].state.clone() } else { small() };
+            files.push(FileSpec { name: format!("{name}.tiny"), content: textfmt::emit_tiny(&state, rng), kind: FileKind::SecondRoot });
+            (Demand::Directory, format!("second root file {name}.tiny next to {}.tiny", g.nodes[0].name))
+        }
+        "cycle.two_versions_pointing_at_each_other_entered_from_both" => {
+            // r#a, r#b, a#b, b#a: a two-cycle that is entered from the root on both of its nodes
+            let (a, _) = version_name(rng, &mut used, split);
+            let (b, _) = version_name(rng, &mut used, split);
+            let r = g.nodes[0].name.clone();
+            for (x, y) in [(&r, &a), (&r, &b), (&a, &b), (&b, &a)] { files.push(FileSpec { name: format!("{x}#{y}.tinydiff"), content: "tiny\t2\t0\n".into(), kind: FileKind::Bad }); }
+            (Demand::Directory, format!("{a} <-> {b}, both direct children of the root"))
         }
         "cycle.through_root" => {
             if n < 2 { return None; }
